@@ -72,6 +72,17 @@ func runSpec(s caseSpec) (fs []finding) {
 	case "sizelimit":
 		sizeLimitCase(s.PayloadLen, s.Corr, func(class, oracle, what string) { add(class, oracle, "plain", what) })
 		return
+	case "lives":
+		dir := newDir()
+		defer os.RemoveAll(dir)
+		var st searchStats
+		type pend struct{ oracle, what string }
+		var ps []pend
+		li := checkLife(s.History, dir, &st, func(oracle, what string) { ps = append(ps, pend{oracle, what}) })
+		for _, p := range ps {
+			add(lifeClass(li), p.oracle, "group", p.what)
+		}
+		return
 	case "group-write":
 		dir := newDir()
 		defer os.RemoveAll(dir)
@@ -158,9 +169,11 @@ func main() {
 	}
 
 	maxLen, fileLen := 3, 2
+	lifeDepth := 6
 	totalBudget = 50 * time.Second
 	if r.Thorough() {
 		maxLen, fileLen = 4, 3
+		lifeDepth = 8
 		totalBudget = 13 * time.Minute
 	}
 	if s := os.Getenv("VERIF_C15_BUDGET_S"); s != "" {
@@ -181,21 +194,24 @@ func main() {
 		sizeLimitPhase()
 		phaseDone("sizelimit")
 		// 3. plain decoder, every corruption of every log
-		beginPhase(0.40)
+		beginPhase(0.36)
 		plainPhase(logs)
 		phaseDone("plain")
-		beginPhase(0.48)
+		beginPhase(0.44)
 		bigPhase()
 		phaseDone("big")
 		// 4. repairWalFile
-		beginPhase(0.62)
+		beginPhase(0.56)
 		repairPhase(fileLogs, true)
 		phaseDone("repair")
 		// 5. real BaseWAL on a real group: rotation and SearchForEndHeight
-		beginPhase(0.81)
+		beginPhase(0.73)
 		groupWritePhase(logs, fileLen)
 		phaseDone("group-write")
 		// 6. corrupted logs read through a real group
+		beginPhase(0.83)
+		livesPhase(lifeDepth)
+		phaseDone("lives")
 		beginPhase(1.0)
 		groupReadPhase(fileLogs)
 		phaseDone("group-read")
@@ -211,13 +227,17 @@ func main() {
 		"(strict until the first error, then skipping corruption errors to end-of-log); logs of <=%d records additionally through repairWalFile (all corruptions in place, one flip per byte plus all other corruptions for the two other destinations; three ways: into a fresh file; IN PLACE exactly as ConsensusState.OnStart does — corrupted log is <dir>/wal, kos.CopyFile to <dir>/wal.CORRUPTED, repair back over the existing longer <dir>/wal; over a pre-existing destination with unrelated longer content — the result must be byte-exactly the longest valid prefix and read back cleanly to end-of-log) and through a real autofile.Group "+
 		"laid out with every rotation pattern class (truncations, one flip per byte, all field/garbage cases) with SearchForEndHeight for every written height and one unwritten; "+
 		"every log is also written through a real BaseWAL with the group's head-size check run after each write for every limit at/around each record boundary, read back, searched for "+
-		"every written and 6 unwritten heights with both search options, restarted and checked again. evaluations = corrupted logs decoded; "+
-		"distinct_nontrivial = distinct (kind sequence, corruption class, record hit, outcome = messages returned + error class) where the corruption really changed the bytes", maxLen, nAlphabet, fileLen))
+		"every written and 6 unwritten heights with both search options, restarted and checked again; "+
+		"MULTI-LIFE histories of the real BaseWAL: every sequence of length 1..%d over {M write a message, E WriteSync EndHeight(next h=1,2,..), R head-size limit reached (flush + the group's own size check, rotates iff the head is non-empty), "+
+		"S Stop+Wait then a new BaseWAL.Start on the same directory (OnStart writes EndHeight 0 iff the head is empty, e.g. right after a rotation)} with >=1 rotation and <=2 restarts at every position; reference = the list of records written; "+
+		"after every history the files must concatenate to those records, read back completely, and SearchForEndHeight(h) for EVERY h in -1..hmax+1 with IgnoreDataCorruptionErrors both ways must report found iff EndHeight(h) is in the list "+
+		"and the returned reader must yield exactly the records after the marker, then end-of-log. evaluations = corrupted logs decoded; "+
+		"distinct_nontrivial = distinct (kind sequence, corruption class, record hit, outcome = messages returned + error class) where the corruption really changed the bytes", maxLen, nAlphabet, fileLen, lifeDepth))
 	r.Assume(
 		"readers are the ones the repository uses: bytes.Reader / os.File (short read only at the end) and autofile.GroupReader; io.Readers that return short reads mid-stream are out of scope",
 		"written messages pass the kinds' own ValidateBasic (what a node writes); field values are the listed boundary values, not all values",
 		"weakest reading of 'reported': a damaged tail may be reported as io.EOF, io.ErrUnexpectedEOF or DataCorruptionError; a truncation whose missing bytes were all zero may be completed to the written message (counted in info_truncated_zero_tail_reconstructed) since the message is unchanged and end-of-log follows",
-		"'found iff written' is required when EndHeight heights are non-decreasing in write order (the search's documented optimisation assumes it); otherwise only 'found => written' and the position",
+		"'found iff written' is required when the EndHeight heights > 0 are non-decreasing in write order (the search's documented optimisation assumes it; EndHeight 0 may appear anywhere, OnStart writes it on every empty head); otherwise only 'found => written' and the position",
 		"with duplicate markers the reader may be positioned after any occurrence",
 		"allocation bound per Decode = maxMsgSizeBytes + 64 KiB, plus 4x the largest written payload when a message is returned (unmarshalled copy); measured as runtime.MemStats.TotalAlloc delta while no other checker goroutine runs",
 		"rotation happens only where the group's own check performs it (record boundaries, since Encode issues one Write per record); a record split across files is not reachable through BaseWAL",
@@ -232,6 +252,7 @@ func main() {
 		r.Require(r.Get("corrupted_logs_with_nonempty_valid_prefix") > 0, "no corrupted log kept a non-empty valid prefix")
 		r.Require(r.Get("messages_read_after_skipping_a_corruption") > 0, "skip mode never resynchronised after a corruption")
 		r.Require(r.Get("searches_found") > 0 && r.Get("searches_not_found") > 0, "SearchForEndHeight did not both find and miss")
+		r.Require(r.Get("multi_life_histories_with_restart_on_empty_head") > 0 && r.Get("searches_multi_life") > 0, "no multi-life history restarted the WAL on an empty head after a rotation")
 		r.Require(r.Get("group_write_cases_with_rotation") > 0, "no rotation happened in the group phase")
 		r.Require(r.Get("evaluations_repair") > 0 && r.DistinctCount("repair_distinct_outcomes") > 10, "repair phase did not run")
 		r.Require(r.Get("size_limit_accepted_by_encoder") > 0 && r.Get("size_limit_rejected_by_encoder") > 0, "size-limit boundary was not exercised on both sides")
